@@ -160,6 +160,9 @@ macro_rules! impl_inner_observer {
         let mut inner = self.0.rc_deref_mut();
         if let Some(data) = inner.as_mut() {
           if let Some(task) = data.subscribe_tasks.pop_front() {
+            // release the state cell first: a queued inner observable that
+            // emits synchronously re-enters it while being subscribed.
+            drop(inner);
             task();
           } else {
             data.subscribed -= 1;
